@@ -888,6 +888,211 @@ theorem C06_select_qualifier_terminates (u : List Nat) (h : Hier) (hc : Closed u
   have hm : selectSearchMarkStable = true := by decide
   rw [hm]; exact visit_terminates u h hc marked e he
 
+/-! ## INCLUDE buffers -/
+
+def scanCfgSafe (c : ScanCfg) : Bool :=
+  match c.guard with | some k => decide (1 ≤ k) && decide (1 ≤ c.cap) | none => false
+
+theorem scanStep_safe (c : ScanCfg) (h : scanCfgSafe c = true) (i : Nat) (hi : i < c.cap) (e : ScanEv) :
+    ∃ j, scanStep c i e = .ok j ∧ j < c.cap := by
+  unfold scanCfgSafe at h
+  cases hg : c.guard with
+  | none => simp [hg] at h
+  | some k =>
+    simp [hg] at h
+    cases e with
+    | includeMissing => exact ⟨i, rfl, hi⟩
+    | newParse => exact ⟨0, rfl, by omega⟩
+    | includeFound =>
+      by_cases hr : c.cap ≤ i + k
+      · exact ⟨i, by simp [scanStep, hg, hr], hi⟩
+      · have : i + 1 < c.cap := by omega
+        exact ⟨i + 1, by simp [scanStep, hg, hr, this], this⟩
+
+theorem scanRun_safe (c : ScanCfg) (h : scanCfgSafe c = true) (evs : List ScanEv) :
+    ∀ i, i < c.cap → ∃ j, scanRun c i evs = .ok j ∧ j < c.cap := by
+  induction evs with
+  | nil => intro i hi; exact ⟨i, rfl, hi⟩
+  | cons e rest ih =>
+    intro i hi
+    obtain ⟨j, hj, hjc⟩ := scanStep_safe c h i hi e
+    obtain ⟨k, hk, hkc⟩ := ih j hjc
+    exact ⟨k, by simp [scanRun, hj, hk], hkc⟩
+
+/-- **C06, INCLUDE**: for every sequence of INCLUDE directives (files found or not) and re-initialisations the scan buffer
+index stays inside `SCAN_buffers[SCAN_NESTING_DEPTH]` (nothing pops with the perplex scanner; the directive is refused first). -/
+theorem C06_no_overflow_scan_buffers (evs : List ScanEv) :
+    ∃ j, scanRun scanCfg 0 evs = .ok j ∧ j < scanCfg.cap :=
+  scanRun_safe scanCfg (by decide) evs 0 (by decide)
+
+/-- the tree before `fix: C06-20`: the sixth successful INCLUDE is stored at `SCAN_buffers[6]` -/
+theorem C06_scan_buffers_unguarded_witness :
+    scanRun { cap := 6, guard := none } 0 (List.replicate 6 .includeFound) = .overflow 6 := by decide
+
+/-! ## nested comments -/
+
+theorem commentRun_safe (c : CommentCfg) (h : c.guarded = true) (evs : List CommentEv) :
+    ∀ lvl, (commentRun c lvl evs).isOverflow = false := by
+  induction evs with
+  | nil => intro lvl; rfl
+  | cons e rest ih =>
+    intro lvl
+    cases e with
+    | close => simp [commentRun, commentStep, ih]
+    | open_ =>
+      by_cases hc : c.cap ≤ lvl
+      · simp [commentRun, commentStep, h, hc, ih]
+      · have : lvl < c.cap := by omega
+        simp [commentRun, commentStep, h, hc, this, ih]
+
+/-- **C06, nested comments**: for every sequence of `(*` and `*)` no store goes outside `open_comment[MAX_NESTED_COMMENTS]`
+(every store is inside the regenerated `nesting_level < MAX_NESTED_COMMENTS` test, in expscan.l and in the generated scanner). -/
+theorem C06_no_overflow_open_comment (evs : List CommentEv) : (commentRun commentCfg 0 evs).isOverflow = false :=
+  commentRun_safe commentCfg (by decide) evs 0
+
+/-- without the test (own mutation): the 21st nested `(*` is stored at `open_comment[20]` -/
+theorem C06_open_comment_unguarded_witness :
+    commentRun { cap := 20, guarded := false } 0 (List.replicate 21 .open_) = .overflow 20 := by decide
+
+/-! ## schema file names -/
+
+def schemaFileCfgSafe (c : SchemaFileCfg) : Bool :=
+  c.nameGuard && c.boundedAppend && (match c.dirGuard with | some k => decide (2 ≤ k) | none => false)
+
+theorem pathEntryOut_safe (c : SchemaFileCfg) (h : schemaFileCfgSafe c = true) (len : Nat) :
+    pathEntryOut c len = .reject ∨ ∃ leaf, pathEntryOut c len = .ok leaf ∧ leaf < c.fullCap := by
+  unfold schemaFileCfgSafe at h
+  cases hg : c.dirGuard with
+  | none => simp [hg] at h
+  | some k =>
+    simp [hg] at h
+    unfold pathEntryOut
+    simp only [hg]
+    by_cases hs : c.fullCap < len + k
+    · left; simp [hs]
+    · right
+      have : len + 2 ≤ c.fullCap := by omega
+      exact ⟨len + 1, by simp [hs, this], by omega⟩
+
+theorem findSchemaOut_safe (c : SchemaFileCfg) (h : schemaFileCfgSafe c = true) (leaf nameLen : Nat) (hl : leaf ≤ c.fullCap) :
+    findSchemaOut c leaf nameLen = .reject ∨ ∃ n, findSchemaOut c leaf nameLen = .ok n ∧ n ≤ c.fullCap := by
+  unfold schemaFileCfgSafe at h
+  simp at h
+  obtain ⟨⟨hn, hb⟩, _⟩ := h
+  unfold findSchemaOut
+  by_cases hg : c.lowerCap ≤ nameLen
+  · left; simp [hn, hg]
+  · right
+    have h1 : ¬ c.lowerCap < nameLen + 1 := by omega
+    have h2 : ¬ c.fullCap < leaf := by omega
+    refine ⟨leaf + min (nameLen + c.ext + 1) (c.fullCap - leaf), by simp [hn, hg, h1, hb, h2], ?_⟩
+    have : min (nameLen + c.ext + 1) (c.fullCap - leaf) ≤ c.fullCap - leaf := Nat.min_le_right _ _
+    omega
+
+/-- **C06, schema files**: an EXPRESS_PATH entry of any length is stored inside `Dir.full[]` or skipped, and for a schema name of
+any length `EXPRESSfind_schema` stores only inside `lower[]` and behind the directory prefix inside `full[]`, or gives up. -/
+theorem C06_no_overflow_schema_file_name (dirLen nameLen : Nat) :
+    (pathEntryOut schemaFileCfg dirLen).isOverflow = false ∧
+    (∀ leaf, leaf ≤ schemaFileCfg.fullCap → (findSchemaOut schemaFileCfg leaf nameLen).isOverflow = false) := by
+  have hs : schemaFileCfgSafe schemaFileCfg = true := by decide
+  constructor
+  · rcases pathEntryOut_safe schemaFileCfg hs dirLen with h | ⟨l, h, _⟩ <;> simp [h, Outcome.isOverflow]
+  · intro leaf hl
+    rcases findSchemaOut_safe schemaFileCfg hs leaf nameLen hl with h | ⟨n, h, _⟩ <;> simp [h, Outcome.isOverflow]
+
+/-- an accepted EXPRESS_PATH entry leaves its leaf inside `full`, which is what the look-up needs -/
+theorem C06_schema_path_leaf_in_range (dirLen leaf : Nat) (h : pathEntryOut schemaFileCfg dirLen = .ok leaf) :
+    leaf ≤ schemaFileCfg.fullCap := by
+  rcases pathEntryOut_safe schemaFileCfg (by decide) dirLen with hr | ⟨l, hl, hlt⟩
+  · rw [hr] at h; cases h
+  · rw [hl] at h; cases h; omega
+
+/-- the tree before `fix: C06-32`: an EXPRESS_PATH directory of 255 characters + '/' + terminator needs 257 bytes -/
+theorem C06_schema_path_unguarded_witness :
+    pathEntryOut { lowerCap := 256, fullCap := 256, nameGuard := true, boundedAppend := true, ext := 4, dirGuard := none } 255 = .overflow 256 := by decide
+
+/-! ## format_for_stringout -/
+
+theorem escapeOut_safe (c : EscapeCfg) (hm : c.perChar ≤ c.mul) (ha : 1 ≤ c.add) (hp : 1 ≤ c.perChar) (len specials : Nat) (hs : specials ≤ len) :
+    (escapeOut c len specials).isOverflow = false := by
+  unfold escapeOut
+  have h1 : (c.perChar - 1) * specials ≤ (c.perChar - 1) * len := Nat.mul_le_mul_left _ hs
+  have h2 : len + (c.perChar - 1) * len = c.perChar * len := by
+    have : c.perChar = (c.perChar - 1) + 1 := by omega
+    calc len + (c.perChar - 1) * len = ((c.perChar - 1) + 1) * len := by rw [Nat.add_mul, Nat.one_mul, Nat.add_comm]
+      _ = c.perChar * len := by rw [← this]
+  have h3 : c.perChar * len ≤ c.mul * len := Nat.mul_le_mul_right _ hm
+  have : len + (c.perChar - 1) * specials + 1 ≤ c.mul * len + c.add := by omega
+  simp [this, Outcome.isOverflow]
+
+/-- **C06, exp2cxx DERIVE initialiser**: for a text of any length with any number of backslashes and newlines
+`format_for_stringout` (at most `perChar` bytes per character, regenerated) stays inside the block `ENTITYincode_print`
+allocates (`mul * strlen + add`, regenerated). -/
+theorem C06_no_overflow_escape_buffer (len specials : Nat) (hs : specials ≤ len) :
+    (escapeOut escapeCfg len specials).isOverflow = false :=
+  escapeOut_safe escapeCfg (by decide) (by decide) (by decide) len specials hs
+
+/-- the tree before `fix: C06-22`: `strlen + BUFSIZ` bytes for 8192 backslashes -/
+theorem C06_escape_buffer_bufsiz_witness :
+    escapeOut { mul := 1, add := 8192, perChar := 2 } 8192 8192 = .overflow 16384 := by decide
+
+/-! ## EXPRto_python -/
+
+def PyInv (s : PyCallState) : Prop := s.used + 2 ≤ s.cap
+
+theorem pyCallArg_safe (c : PyCallCfg) (e : Nat) (he : c.ensure = some e) (h4 : c.sep + c.close + 1 ≤ e) (hc : 1 ≤ c.close)
+    (s : PyCallState) (t : Nat) : ∃ s', pyCallArg c s t = .ok s' ∧ s'.used + c.close + 1 ≤ s'.cap := by
+  unfold pyCallArg
+  simp only [he]
+  by_cases hg : s.cap < s.used + t + e
+  · refine ⟨⟨s.used + (if s.first then 0 else c.sep) + t, s.used + t + e + c.initial, false⟩, ?_, ?_⟩
+    · have : s.used + (if s.first then 0 else c.sep) + t + 1 ≤ s.used + t + e + c.initial := by split <;> omega
+      simp [hg, this]
+    · show s.used + (if s.first then 0 else c.sep) + t + c.close + 1 ≤ s.used + t + e + c.initial
+      split <;> omega
+  · refine ⟨⟨s.used + (if s.first then 0 else c.sep) + t, s.cap, false⟩, ?_, ?_⟩
+    · have : s.used + (if s.first then 0 else c.sep) + t + 1 ≤ s.cap := by split <;> omega
+      simp [hg, this]
+    · show s.used + (if s.first then 0 else c.sep) + t + c.close + 1 ≤ s.cap
+      split <;> omega
+
+theorem pyCallArgs_safe (c : PyCallCfg) (e : Nat) (he : c.ensure = some e) (h4 : c.sep + c.close + 1 ≤ e) (hc : 1 ≤ c.close)
+    (args : List Nat) : ∀ s, s.used + c.close + 1 ≤ s.cap → ∃ s', pyCallArgs c s args = .ok s' ∧ s'.used + c.close + 1 ≤ s'.cap := by
+  induction args with
+  | nil => intro s hs; exact ⟨s, rfl, hs⟩
+  | cons t rest ih =>
+    intro s _
+    obtain ⟨s1, h1, hi1⟩ := pyCallArg_safe c e he h4 hc s t
+    obtain ⟨s2, h2, hi2⟩ := ih s1 hi1
+    exact ⟨s2, by simp [pyCallArgs, h1, h2], hi2⟩
+
+theorem pyCallOut_safe (c : PyCallCfg) (e : Nat) (he : c.ensure = some e) (h4 : c.sep + c.close + 1 ≤ e) (hc : 1 ≤ c.close)
+    (nameLen : Nat) (hn : nameLen + 1 + c.close + 1 ≤ c.initial) (args : List Nat) :
+    (pyCallOut c nameLen args).isOverflow = false := by
+  have hstart : (pyCallStart c nameLen).used + c.close + 1 ≤ (pyCallStart c nameLen).cap := by
+    unfold pyCallStart
+    have : min (nameLen + 1) (c.initial - 1) ≤ nameLen + 1 := Nat.min_le_left _ _
+    show min (nameLen + 1) (c.initial - 1) + c.close + 1 ≤ c.initial
+    omega
+  obtain ⟨s, hs, hi⟩ := pyCallArgs_safe c e he h4 hc args _ hstart
+  unfold pyCallOut
+  simp [hs, hi, Outcome.isOverflow]
+
+/-- **C06, exp2python `EXPRto_python`** (aggregate bounds): a function call with a name the identifier gate accepts and any
+number of arguments of any translated lengths stays inside its buffer: it is grown before every argument so that the
+argument, the separator, the closing parenthesis and the terminator fit. -/
+theorem C06_no_overflow_exprto_python (g maxlen : Nat) (hg : ("exp2python", some g, maxlen) ∈ identGates)
+    (nameLen : Nat) (hn : nameLen ≤ g) (args : List Nat) : (pyCallOut pyCallCfg nameLen args).isOverflow = false := by
+  have hall : identGates.all (fun t => match t.2.1 with | some g => decide (g + 1 + pyCallCfg.close + 1 ≤ pyCallCfg.initial) | none => true) = true := by decide
+  have hgate := List.all_eq_true.mp hall ("exp2python", some g, maxlen) hg
+  simp only [decide_eq_true_eq] at hgate
+  have he : pyCallCfg.ensure = some 4 := by decide
+  exact pyCallOut_safe pyCallCfg 4 he (by decide) (by decide) nameLen (by omega) args
+
+/-- the tree before `fix: C06-29`: no growth — one argument of 99 999 translated characters does not fit 100 000 bytes -/
+theorem C06_exprto_python_fixed_witness :
+    (pyCallOut { initial := 100000, ensure := none, sep := 2, close := 1 } 2 [99999]).isOverflow = true := by decide
+
 /-! ## interface resolution over the USE graph -/
 
 theorem renameSearchList_ok (u : List Nat) (h : Hier) (fuel : Nat) (path : List Nat)
